@@ -94,10 +94,13 @@ P["C06"] = dict(
         ("Props.C06.C06_nested", "events properly nested; closer pairs with the innermost opener and carries its offset"),
         ("Props.C06.C06_string_token", "RFC strings are scalar tokens"),
         ("Props.C06.C06_number_token", "RFC numbers are scalar tokens"),
-        ("Props.C06.C06_key_token", "RFC strings are key tokens")) + ob("JSight.Props.C13",
+        ("Props.C06.C06_key_token", "RFC strings are key tokens"),
+        ("Props.C06.C06_schema_events_of_tree", "schema scanner model on every plain-JSON value tree (any depth/width/layout incl. line breaks): exactly the tree's events plus one newLine per line break"),
+        ("Props.C06.C06_schema_is_json_plus_newlines", "clone agreement: on the same bytes the JSON scanner delivers the schema scanner's stream without the newLine events; the schema scanner adds nothing else"),
+        ("Props.C06.C06_enum_events", "enum-rule scanner model on ws [ items ] ws: the events the grammar predicts")) + ob("JSight.Props.C13",
         ("JsonScan.evs_types", "the event-type sequence is a function of the tree without layout")),
     runs=[{"cmd": ["json-diff"]}, {"cmd": ["json-tprod"]}, {"cmd": ["schema-diff"]}, {"cmd": ["enum-diff"]}],
-    partial="schema / enum scanner clone agreement: models validated bounded-exhaustively against the code, simulation not proved",
+    partial="clone agreement of the schema and enum scanner models with the JSON scanner model is a theorem for plain-JSON trees without exponents / lists of scalars; annotations, comments and type shortcuts are covered by the differential only",
     level_text="Proof (JSON scanner): for every valid JSON tree, every layout and both modes the scanner model delivers exactly the events the tree denotes — properly nested, spans inside the input, literal/key spans = tokens, containers bracket to bracket (unbounded depth/width). Tie: events of real NextLexeme vs model on generated valid texts (plus rebuild-the-value-from-events against encoding/json), mutations, product-state exploration; schema and enum scanners: full event streams vs their Lean models, bounded-exhaustive over four alphabets + mutations.",
     level_note="Trusted: Lean kernel; schema/enum scanner models are validated (millions of inputs), their equivalence to the JSON scanner on plain JSON is not a theorem.",
     technique="Lean 4 theorem (events of a rendered tree, mutual structural recursion) + differential / product-state correspondence")
